@@ -176,3 +176,32 @@ Example ex_checker_rejects :
     (map (fun n => if n_name n =? 1 then mknode 1 (n_call n) (n_total n) (n_total n) else n)
          (report (mkcase 1024 [(1, 1); (2, 2); (3, 3)] (map trace_recs ex_tts)))) = false.
 Proof. vm_compute. reflexivity. Qed.
+
+(* ------------------------------------------------------------------ refuted outside the guard *)
+(* data of a forked child: the frames main{work{fork}} are inherited, only their EXITs are recorded.
+   [work]'s only invocation is outermost, yet it is classified recursive (the never-entered slots all
+   have addr 0): its Total is 0 while its Self is 1000. *)
+Definition child_case : case :=
+  mkcase 1024 [(10, 1); (20, 2); (30, 3)] [[mkrec EXIT 2 30 1310; mkrec EXIT 1 20 2310; mkrec EXIT 0 10 3310]].
+Lemma inherited_frames_refuted :
+  exists n, find_node (report child_case) 2 = Some n
+            /\ n_call n = 1 /\ sum (n_total n) = 0 /\ recs (n_total n) = 1000 /\ sum (n_self n) = 1000.
+Proof. eexists. vm_compute. repeat split; reflexivity. Qed.
+
+(* ... and a LOST marker after such a start wraps a duration below zero *)
+Definition lost_case : case :=
+  mkcase 1024 [(10, 1); (20, 2); (30, 3)]
+    [[mkrec LOST 0 1 0; mkrec EXIT 2 30 1300; mkrec EXIT 1 20 1400; mkrec ENTRY 1 20 1500; mkrec LOST 0 1 0;
+      mkrec EXIT 0 10 1900]].
+Lemma lost_after_inherited_refuted :
+  exists n, find_node (report lost_case) 2 = Some n /\ smax (n_total n) = M64 - 1499.
+Proof. eexists. vm_compute. split; reflexivity. Qed.
+
+(* report --task measures open calls until the last EXIT: 200 ns instead of 8000 ns; no EXIT, no line *)
+Lemma task_mode_open_refuted :
+  let killed := [mkrec ENTRY 0 10 1000; mkrec ENTRY 1 30 1100; mkrec EXIT 1 30 1200; mkrec ENTRY 1 20 1300;
+                 mkrec ENTRY 2 30 9000] in
+  task_line 1024 killed = (200, 2)
+  /\ sumN (map w_self (task_rows 1024 killed)) = 8000
+  /\ task_line 1024 [mkrec ENTRY 0 10 1000; mkrec ENTRY 1 20 5000] = (0, 0).
+Proof. vm_compute. repeat split; reflexivity. Qed.
